@@ -40,6 +40,27 @@ REQUESTS = [
     ("ref_from_ptr", "multiboot2-common/src/lib.rs", r"DynSizedStructure<H>", "ref_from_ptr", ["Self::ref_from_slice(slice)"]),
     ("ref_from_slice", "multiboot2-common/src/lib.rs", r"DynSizedStructure<H>", "ref_from_slice",
      ["BytesRef::<H>::try_from(bytes)", "Self::ref_from_bytes(bytes)"]),
+    ("new_boxed", "multiboot2-common/src/boxed.rs", "", "new_boxed",
+     ["size_of::<T::Header>()", "additional_bytes_slices.iter().map(|b|b.len()).sum::<usize>()", "heap_ptr.is_null()",
+      "size_of_val(reference.deref())", "Layout::from_size_align(alloc_size,ALIGNMENT)", "Box::from_raw(ptr)", "write_offset", "bytes.len()"]),
+    # heap-built constructors: the header handed to new_boxed and the content slices in order
+    ("cmdline_new", "multiboot2/src/command_line.rs", r"impl\s+CommandLineTag\b", "new", ["bytes.ends_with(&[0])", "command_line.as_bytes()", "[0]"]),
+    ("loader_new", "multiboot2/src/boot_loader_name.rs", r"impl\s+BootLoaderNameTag\b", "new", ["bytes.ends_with(&[0])", "name.as_bytes()", "[0]"]),
+    ("module_new", "multiboot2/src/module.rs", r"impl\s+ModuleTag\b", "new",
+     ["end", "start", "cmdline.ends_with(&[0])", "start.to_ne_bytes()", "end.to_ne_bytes()", "cmdline.as_bytes()", "[0]"]),
+    ("smbios_new", "multiboot2/src/smbios.rs", r"impl\s+SmbiosTag\b", "new", ["[major,minor]", "[0,0,0,0,0,0]", "tables"]),
+    ("network_new", "multiboot2/src/network.rs", r"impl\s+NetworkTag\b", "new", ["dhcp_pack"]),
+    ("inforeq_new", "multiboot2-header/src/information_request.rs", r"impl\s+InformationRequestHeaderTag\b", "new",
+     ["flags", "slice::from_raw_parts(ptr.cast::<u8>(),size_of_val(requests))"]),
+    ("cast", "multiboot2-common/src/lib.rs", r"DynSizedStructure<H>", "cast",
+     ["T::BASE_SIZE", "size_of::<H>()", "size_of_val(self)", "size_of_val(t_ref)", "ptr_meta::from_raw_parts(base_ptr.cast(),t_dst_size)"]),
+    ("tag_iter_new", "multiboot2-common/src/iter.rs", r"impl<'a,\s*H:\s*Header>\s+TagIter<'a,\s*H>", "new",
+     ["mem.as_ptr().align_offset(ALIGNMENT)", "mem"]),
+    ("tag_header_set_size", "multiboot2/src/tag.rs", r"Header\s+for\s+TagHeader", "set_size", ["total_size"]),
+    ("bi_header_set_size", "multiboot2/src/boot_information.rs", r"Header\s+for\s+BootInformationHeader", "set_size", ["total_size"]),
+    ("ht_header_set_size", "multiboot2-header/src/tags.rs", r"Header\s+for\s+HeaderTagHeader", "set_size", ["total_size"]),
+    ("hb_header_set_size", "multiboot2-header/src/header.rs", r"Header\s+for\s+Multiboot2BasicHeader", "set_size",
+     ["total_size", "self.header_magic", "self.arch"]),
     ("header_total_size_default", "multiboot2-common/src/lib.rs", r"trait\s+Header", "total_size",
      ["size_of::<Self>()", "self.payload_len()"]),
     ("tag_iter_next", "multiboot2-common/src/iter.rs", r"Iterator\s+for\s+TagIter", "next",
@@ -56,6 +77,12 @@ REQUESTS = [
      ["self.header_magic", "self.arch", "self.length", "self.checksum"]),
     ("mbi_load", "multiboot2/src/boot_information.rs", r"impl<'a>\s+BootInformation<'a>", "load",
      ["NonNull::new(ptr.cast_mut())", "DynSizedStructure::ref_from_ptr(ptr)", "this.has_valid_end_tag()"]),
+    ("find_header", "multiboot2-header/src/header.rs", r"impl<'a>\s+Multiboot2Header<'a>", "find_header",
+     ["buffer.as_ptr().align_offset(ALIGNMENT)", "buffer.len()", "buffer[..buffer.len().min(8192)]",
+      "windows.position(|vals|{u32::from_le_bytes(vals.try_into().unwrap())==MAGIC})#0",
+      "buffer.get(magic_index+8..magic_index+12)",
+      "u32::from_le_bytes(buffer.get(magic_index+8..magic_index+12).ok_or(LoadError::Memory(MemoryError::MissingPadding))?.try_into().unwrap(),).try_into()",
+      "magic_index.checked_add(header_length).and_then(|end|buffer.get(magic_index..end))"]),
     ("has_valid_end_tag", "multiboot2/src/boot_information.rs", r"impl<'a>\s+BootInformation<'a>", "has_valid_end_tag",
      ["end_tag.typ", "end_tag.size"]),
     ("hdr_load", "multiboot2-header/src/header.rs", r"impl<'a>\s+Multiboot2Header<'a>", "load",
@@ -153,6 +180,16 @@ PINNED = [
     ("module_iter_next", "multiboot2/src/module.rs", r"Iterator\s+for\s+ModuleIter", "next"),
     ("hdr_get_tag", "multiboot2-header/src/header.rs", r"impl<'a>\s+Multiboot2Header<'a>", "get_tag"),
     ("hdr_iter", "multiboot2-header/src/header.rs", r"impl<'a>\s+Multiboot2Header<'a>", "iter"),
+    ("mbi_elf_sections", "multiboot2/src/boot_information.rs", r"impl<'a>\s+BootInformation<'a>", "elf_sections"),
+    ("parse_slice_as_string", "multiboot2/src/util.rs", "", "parse_slice_as_string"),
+    ("cmdline_get", "multiboot2/src/command_line.rs", r"impl\s+CommandLineTag\b", "cmdline"),
+    ("loader_name_get", "multiboot2/src/boot_loader_name.rs", r"impl\s+BootLoaderNameTag\b", "name"),
+    ("module_cmdline_get", "multiboot2/src/module.rs", r"impl\s+ModuleTag\b", "cmdline"),
+    ("rsdp1_checksum", "multiboot2/src/rsdp.rs", r"impl\s+RsdpV1Tag\b", "checksum_is_valid"),
+    ("clone_dyn", "multiboot2-common/src/boxed.rs", "", "clone_dyn"),
+    ("dyn_as_bytes", "multiboot2-common/src/tag.rs", r"trait\s+MaybeDynSized", "as_bytes"),
+    ("dyn_payload", "multiboot2-common/src/tag.rs", r"trait\s+MaybeDynSized", "payload"),
+    ("dyn_header", "multiboot2-common/src/tag.rs", r"trait\s+MaybeDynSized", "header"),
 ]
 
 INT_TYS = {"u8": ".u8", "u16": ".u16", "u32": ".u32", "u64": ".u64", "usize": ".usize"}
@@ -502,8 +539,22 @@ class Parser:
             self.eat(")")
             return ("paren", e)
         if self.at("["):
-            self.skip_balanced("[", "]")
-            return ("opaque", self.span(a))
+            save = self.i
+            try:
+                self.i += 1
+                elems = []
+                while not self.at("]"):
+                    elems.append(self.expr())
+                    if self.at(";"):
+                        raise Unsupported("repeat array")
+                    if self.at(","):
+                        self.i += 1
+                self.eat("]")
+                return ("array", elems, self.span(a))
+            except Unsupported:
+                self.i = save
+                self.skip_balanced("[", "]")
+                return ("opaque", self.span(a))
         if self.at("{"):
             return self.block()
         if self.at("unsafe"):
@@ -545,7 +596,24 @@ class Parser:
             c = self.expr(nostruct=True)
             body = self.block()
             return ("while", c, body)
-        if self.at("for") or self.at("loop"):
+        if self.at("for"):
+            self.i += 1
+            a0 = self.i
+            depth = 0
+            while not (self.at("in") and depth == 0):
+                if self.peek()[0] == "eof":
+                    raise Unsupported("for pattern")
+                if self.peek()[1] in ("(", "["):
+                    depth += 1
+                if self.peek()[1] in (")", "]"):
+                    depth -= 1
+                self.i += 1
+            pat = untok(self.t[a0:self.i])
+            self.eat("in")
+            it = self.expr(nostruct=True)
+            body = self.block()
+            return ("for", pat, it, body)
+        if self.at("loop"):
             raise Unsupported("loop")
         if k == "id":
             # path, optional generics, macro, struct literal
@@ -685,6 +753,8 @@ class Lowerer:
         self.mutated = []
         self.computed_keys = {}
         self.aliases = []
+        self.loops = []
+        self.effects = []
         self.mut_receivers = set()     # `let mut x` / `&mut self`: calls on them may return a different value each time
         self.call_count = {}
 
@@ -762,6 +832,8 @@ class Lowerer:
             return ("i", ".unit")
         if k == "opaque":
             return ("o", e[1])
+        if k == "array":
+            return self.opaque(e[2], scope)
         if k == "structlit":
             # the computed fields (source order) as right-nested pairs; opaque fields carry no decision
             vals = []
@@ -890,6 +962,8 @@ class Lowerer:
                 return ("i", ".panic")
             if e[1] == "cfg" and len(e[2]) == 1 and e[2][0][0] == "path" and e[2][0][1] == ["debug_assertions"]:
                 return ("i", ".isDev")
+            if e[1].split("::")[-1] in ("addr_of", "addr_of_mut"):
+                return ("o", "addr_of!(..)")
             raise Unsupported("macro " + e[1])
         if k == "return":
             raise Unsupported("return in expression position")
@@ -949,6 +1023,22 @@ class Lowerer:
                 for v in reversed(vs[:-1]):
                     ir = "(.pair %s %s)" % (v, ir)
                 return ("i", ir)
+            if last == "new_boxed" and len(args) == 2:
+                # `new_boxed(header, &[s0, s1, ..])`: the header value and the content slices IN ORDER
+                arr = strip_parens(args[1])
+                while arr[0] == "un" and arr[1] == "&":
+                    arr = strip_parens(arr[2])
+                if arr[0] == "array":
+                    h = self.use(self.lower(args[0], scope, pre))
+                    vs = [self.use(self.lower(x, scope, pre)) for x in arr[1]]
+                    ir = ".unit"
+                    if vs:
+                        ir = vs[-1]
+                        for v in reversed(vs[:-1]):
+                            ir = "(.pair %s %s)" % (v, ir)
+                        if len(vs) == 1:
+                            ir = "(.pair %s .unit)" % vs[0]
+                    return ("i", '(.c1 "new_boxed" (.pair %s %s))' % (h, ir))
             # inlining of requested functions
             key = None
             if len(segs) == 1 and ("", last) in self.registry:
@@ -963,6 +1053,10 @@ class Lowerer:
                 if segs[0] == "Self" and self.self_ty:
                     nm = self.self_ty + "::" + last
                 return ("i", '(.c1 "%s" %s)' % (nm, self.use(self.lower(args[0], scope, pre))))
+        # an unknown function: an uninterpreted input named by its text - but `?` inside its arguments still returns early
+        for a in args:
+            if "?" in (a[-1] if isinstance(a[-1], str) else ""):
+                self.lower(a, scope, pre)
         return self.opaque(text, scope)
 
     PRIM2 = {"wrapping_add": ".wrappingAdd", "wrapping_sub": ".wrappingSub", "wrapping_mul": ".wrappingMul",
@@ -1112,6 +1206,8 @@ class Lowerer:
                 return self.wrap_pre(pre, ir)
             if t[0] == "block":
                 return self.lower_stmts(t[1], t[2], dict(scope), k)
+            if t[0] in ("for", "while"):
+                return self.lower_stmts([("expr", t)], None, scope, k)
             pre = []
             v = self.use(self.lower(t, scope, pre))
             return self.wrap_pre(pre, k(v, scope))
@@ -1181,6 +1277,35 @@ class Lowerer:
                 body = self.lower_stmts(e[2][1], e[2][2], dict(scope),
                                         lambda v, sc2: self.ret_wrap('(.c0 "continue")', self.merge(scope, sc2)))
                 return self.wrap_pre(pre, "(.ite %s %s %s)" % (c, body, cont(scope)))
+            if e[0] == "for":
+                # ONE iteration as a step function over the variables assigned in the body (emitted as `<name>_loop<k>`); after
+                # the loop those variables are unknown (fresh inputs `x@after-loop`)
+                assigned = []
+                collect_assigned(e[3], assigned)
+                sc = dict(scope)
+                for n in re.findall(r"[A-Za-z_]\w*", e[1]):
+                    if n not in ("mut", "ref"):
+                        sc[n] = ("o", n)
+                for a in assigned:          # the loop state at the START of an iteration is an input of the step
+                    sc[a] = ("o", a)
+
+                def endk(v, sc2, assigned=assigned):
+                    vals = []
+                    for a in assigned:
+                        b = sc2.get(a)
+                        vals.append("(.var %d)" % b[1] if b and b[0] == "v" else self.freevar(a))
+                    if not vals:
+                        return ".unit"
+                    ir = vals[-1]
+                    for v2 in reversed(vals[:-1]):
+                        ir = "(.pair %s %s)" % (v2, ir)
+                    return ir
+                body = self.lower_stmts(e[3][1], e[3][2], sc, endk)
+                self.loops.append((body, list(assigned), e[1], self.subst_text(untok_expr(e[2]), scope)))
+                sc3 = dict(scope)
+                for a in assigned:
+                    sc3[a] = ("o", a + "@after-loop")
+                return cont(sc3)
             if e[0] == "macro":
                 nm = e[1].split("::")[-1]
                 if nm in ("assert", "debug_assert"):
@@ -1204,6 +1329,7 @@ class Lowerer:
             if pre:
                 return self.wrap_pre(pre, cont(scope))
             if r[0] == "o":
+                self.effects.append(self.subst_text(r[1], scope))     # an opaque call evaluated for its effect
                 return cont(scope)
             raise Unsupported("expression statement")
         raise Unsupported("statement " + s[0])
@@ -1244,6 +1370,30 @@ class Lowerer:
         else:
             el = self.lower_if(e[3], scope, k)
         return self.wrap_pre(pre, "(.ite %s %s %s)" % (c, t, el))
+
+
+def collect_assigned(node, out):
+    if isinstance(node, tuple):
+        if node and node[0] == "assign" and isinstance(node[1], str):
+            if node[1] not in out:
+                out.append(node[1])
+        for x in node:
+            collect_assigned(x, out)
+    elif isinstance(node, list):
+        for x in node:
+            collect_assigned(x, out)
+
+
+def untok_expr(e):
+    """source text of an expression node (the last string component of call / path nodes)"""
+    e = strip_parens(e)
+    if e[0] in ("path", "call", "index", "try") and isinstance(e[-1], str):
+        return e[-1]
+    if e[0] in ("mcall", "field") and isinstance(e[-1], str):
+        return e[-1]
+    if e[0] == "un":
+        return e[1] + untok_expr(e[2])
+    return "?"
 
 
 def assigned_self_fields(node, out):
@@ -1411,6 +1561,7 @@ def translate(ctx, req, registry):
     assigned_self_fields(blk, lw.mutated)
     scope = {}
     ir = lw.lower_stmts(blk[1], blk[2], scope, lambda v, sc: lw.ret_wrap(v, sc))
+    translate.last = lw
     return ir, lw.free, lw.mutated, lw.aliases
 
 
@@ -1463,6 +1614,14 @@ def main(out_path, report_path=None):
             lines.append("def %s_vars : List String := [%s]" % (name, ", ".join(json.dumps(f) for f in free)))
             lines.append("def %s_state : List String := [%s]" % (name, ", ".join(json.dumps(f) for f in mutated)))
             lines.append("def %s_aliases : List (String × String) := [%s]" % (name, ", ".join("(%s, %s)" % (json.dumps(a), json.dumps(b)) for a, b in aliases)))
+            lw = translate.last
+            if lw.loops or lw.effects:
+                for k, (body, assigned, pat, it) in enumerate(lw.loops):
+                    lines.append("def %s_loop%d : Option E := some\n  %s" % (name, k, body))
+                    lines.append("def %s_loop%d_state : List String := [%s]" % (name, k, ", ".join(json.dumps(a) for a in assigned)))
+                    lines.append("def %s_loop%d_over : String × String := (%s, %s)" % (name, k, json.dumps(pat), json.dumps(it)))
+                lines.append("def %s_effects : List String := [%s]" % (name, ", ".join(json.dumps(x) for x in lw.effects)))
+                lines.append("def %s_vars_all : List String := [%s]" % (name, ", ".join(json.dumps(f) for f in lw.free)))
             report["translated"].append(name)
             if len(free) > len(req[4]):
                 report["extra_inputs"][name] = free[len(req[4]):]
